@@ -305,7 +305,7 @@ func runGwHistory(rng *rand.Rand, w *Writer, suite string, malformed bool) {
 			// the change must be in force for the very next datagram: probe from every socket
 			if rng.Intn(2) == 0 {
 				for si := range gw.socks {
-					tok := uint16(rng.Intn(65536))
+					tok := someToken(rng)
 					en := rxEntry{tmst: rng.Uint32(), ch: uint8(rng.Intn(8)), datr: datrs[rng.Intn(len(datrs))], rssi: -50, lsnr: "7.25", data: randBytes(rng, 1+rng.Intn(20))}
 					pkt := append(header(2, tok, 0, e), []byte(`{"rxpk":[`+entryJSON(en)+`]}`)...)
 					w.Begin(suite + " datagram " + hx(pkt))
@@ -316,7 +316,7 @@ func runGwHistory(rng *rand.Rand, w *Writer, suite string, malformed bool) {
 			}
 		case r < 4: // PULL_DATA
 			si := rng.Intn(len(gw.socks))
-			tok := uint16(rng.Intn(65536))
+			tok := someToken(rng)
 			ver := byte(1 + rng.Intn(2))
 			pkt := header(ver, tok, 2, e)
 			if rng.Intn(6) == 0 {
@@ -328,7 +328,7 @@ func runGwHistory(rng *rand.Rand, w *Writer, suite string, malformed bool) {
 			w.Count("gw.pull_data")
 		case r < 9: // PUSH_DATA with 0..4 entries
 			si := rng.Intn(len(gw.socks))
-			tok := uint16(rng.Intn(65536))
+			tok := someToken(rng)
 			ver := byte(1 + rng.Intn(2))
 			ne := rng.Intn(5)
 			var ents []string
@@ -439,4 +439,12 @@ func init() {
 	suites["C16"] = gwSuite("C16", false, 60, 1500)
 	suites["C17"] = gwSuite("C17", false, 60, 1500)
 	extraC11 = append(extraC11, gwSuite("C11", true, 40, 800))
+}
+
+// request tokens: mostly random, with the edges of the 16-bit space and byte-asymmetric values mixed in
+func someToken(rng *rand.Rand) uint16 {
+	if rng.Intn(4) == 0 {
+		return []uint16{0x0000, 0xffff, 0x00ff, 0xff00, 0x0001, 0x0100, 0x8000, 0x0080}[rng.Intn(8)]
+	}
+	return uint16(rng.Intn(65536))
 }
